@@ -2,7 +2,7 @@
 //   seq    : cases "multi bc (op key)*" op 1 insert / 3 find / 9 dump -> results + white-box dumps of the split-ordered list
 //   skip   : cases "multi (key)*" -> sequential inserts into concurrent_set/multiset, then the structure oracle: per level the chain of keys
 //            output: OK or BAD <reason>; (level-0 chain sorted, unique unless multi, level-i chain = nodes of height > i in order)
-//   gate   : kind(0 unordered_set,1 unordered_multiset,2 set,3 multiset) bc nthreads per thread (len (op key)*) -1 schedule
+//   gate   : kind(0 unordered_set,1 unordered_multiset,2 set,3 multiset) bc npre pre-inserted-keys nthreads per thread (len (op key)*) -1 schedule
 //            op 1 insert | 3 find(count) | 4 traverse (begin..end) ; output history + final contents
 //   mt kind T seed n keys : real threads oracle
 #include "drv/common.h"
@@ -70,6 +70,8 @@ template <class S> static void gate_run(std::vector<i128>& c, bool multi, bool u
     if constexpr (std::is_same<S, USet>::value || std::is_same<S, UMSet>::value) s = new S(bc); else s = new S();
     struct Rec { int tid, op; long arg, res; long inv, resp; std::vector<long> seen; };
     std::vector<Rec> hist;
+    int npre = (int)c[p++];      // keys inserted before the threads start
+    for (int k = 0; k < npre; ++k) s->insert((long)c[p++]);
     int n = (int)c[p++];
     for (int t = 0; t < n; ++t) {
         int len = (int)c[p++]; std::vector<std::pair<int, long>> sc;
